@@ -12,6 +12,7 @@ import (
 	"testing"
 	"time"
 
+	"github.com/vulcand/oxy/v2/buffer"
 	"github.com/vulcand/oxy/v2/internal/holsterv4/clock"
 	"github.com/vulcand/oxy/v2/roundrobin"
 	"github.com/vulcand/oxy/v2/roundrobin/stickycookie"
@@ -110,6 +111,9 @@ type world struct {
 	log     []string
 	members map[string]*url.URL
 	direct  map[string]bool // members registered directly on the wrapped balancer
+	// otherCookies: how the client's unrelated cookies travel (0 none, 1 same Cookie field before
+	// the affinity cookie, 2 a Cookie field of their own BEFORE the field with the affinity cookie)
+	otherCookies int
 }
 
 // remove takes a member out of the pool the same way it was put in.
@@ -127,8 +131,18 @@ func (w *world) logf(f string, a ...any) { w.log = append(w.log, fmt.Sprintf(f, 
 // server the handler saw and the cookie issued by the response, if any.
 func (w *world) do(c *http.Cookie) (*url.URL, *http.Cookie, int) {
 	req := httptest.NewRequest("GET", "http://front/", nil)
+	switch w.otherCookies {
+	case 1:
+		req.AddCookie(&http.Cookie{Name: "theme", Value: "dark"})
+	case 2:
+		req.Header.Add("Cookie", "theme=dark; lang=en")
+	}
 	if c != nil {
-		req.AddCookie(c)
+		if w.otherCookies == 2 {
+			req.Header.Add("Cookie", c.Name+"="+c.Value)
+		} else {
+			req.AddCookie(c)
+		}
 	}
 	w.seen, w.served = nil, 0
 	rec := httptest.NewRecorder()
@@ -231,11 +245,25 @@ func TestC11_Sessions(t *testing.T) {
 		var now time.Duration
 		w := &world{t: t, members: map[string]*url.URL{}, direct: map[string]bool{}}
 		w.cd = genCodec(t, 2, "c")
-		handler := http.HandlerFunc(func(rw http.ResponseWriter, r *http.Request) {
+		w.otherCookies = rapid.IntRange(0, 2).Draw(t, "otherCookies")
+		appCookie := rapid.Bool().Draw(t, "backendSetsCookies")
+		var handler http.Handler = http.HandlerFunc(func(rw http.ResponseWriter, r *http.Request) {
 			w.served++
 			w.seen = r.URL
+			if appCookie { // the application behind the balancer has cookies of its own
+				rw.Header().Add("Set-Cookie", "appsession=s-1; Path=/")
+				rw.Header().Add("Set-Cookie", "sidx=1")
+			}
 			rw.WriteHeader(299)
 		})
+		viaBuffer := rapid.IntRange(0, 3).Draw(t, "bufferBehindBalancer") == 0
+		if viaBuffer {
+			b, err := buffer.New(handler)
+			if err != nil {
+				t.Fatalf("buffer.New: %v", err)
+			}
+			handler = b
+		}
 		ss := roundrobin.NewStickySession("sid").SetCookieValue(w.cd.cv)
 		useRB := rapid.Bool().Draw(t, "rebalancer")
 		if useRB {
@@ -449,7 +477,13 @@ func TestC11_Sessions(t *testing.T) {
 		if useRB {
 			cl = append(cl, "rebalancer")
 		}
-		vstat.Case(w.cd.name+"|"+strings.Join(w.log, ";"), nt, cl, map[string]any{"codec": w.cd.name, "rebalancer": useRB, "history": w.log})
+		if w.otherCookies == 2 {
+			cl = append(cl, "affinity-cookie-in-second-Cookie-field")
+		}
+		if viaBuffer && appCookie {
+			cl = append(cl, "buffer-behind-balancer+backend-cookies")
+		}
+		vstat.Case(fmt.Sprintf("%s|%d%v%v|%s", w.cd.name, w.otherCookies, appCookie, viaBuffer, strings.Join(w.log, ";")), nt, cl, map[string]any{"codec": w.cd.name, "rebalancer": useRB, "history": w.log})
 	})
 }
 
